@@ -141,7 +141,7 @@ impl Prop for C10 {
                             td.restore();
                             let mut img = st.img.clone();
                             img.insert(newest.clone(), tail.clone());
-                            suffix_check(&img, &cfg, want.clone(), mix(case.sel, ti as u64), crate::props::c05::max_id_of(&st.model)).map_err(|mut f| {
+                            suffix_check(&img, &cfg, want.clone(), mix(case.sel, ti as u64), crate::props::c05::max_id_of(&st.model), true).map_err(|mut f| {
                                 f.msg = format!("{desc}: after recovery: {}", f.msg);
                                 f
                             })?;
